@@ -210,13 +210,38 @@ def step (line : String) : String :=
             let (s, out) := simulate v fuel { rl := { offset := startOff }, br := br }
             answer s!"d={showStream [s.rl.out]} j={showJournal s.journal} out={out} close=ok" holds
           else
-            -- SetOffset scripts: the delivered stream follows from the front model (the first message accepted after
-            -- SetOffset(o) is the first stored record at or above o, then the log in order); the journal of the
-            -- cancelled fetchers' read-ahead depends on the queue capacity and is not modelled
+            -- SetOffset scripts: the delivered stream follows from the front model (`setoffset_delivers`: the messages
+            -- accepted after SetOffset(o) are the stored records at or above o, in order); the journal from the loop
+            -- model: a superseded fetcher has fetched exactly as far as the message it blocks on in sendMessage
+            -- (taken by the application + queue capacity + one in hand) or idles at the high watermark
             let segsM := (List.range positions.length).map fun i =>
               let stored := all.filter (fun r => positions.getD i 0 ≤ r.1)
               if i + 1 == positions.length then stored else stored.take (lens.getD i 0)
-            answer s!"d={showStream segsM} j={ij} out=done close=ok" holds
+            let q := ((fieldInt ws "q").getD 1).toNat
+            let br : RBroker := { ver := ver.toNat, items := withFirst, hwm := hwm, budgets := budgets, faults := faults,
+                                  trunc := trunc, orig := withFirst }
+            let fuel := 40 * (all.length + 5) + 200
+            let startRL : Int := startOff
+            let sim0 : Sim := { rl := { offset := startRL }, br := br }
+            -- `Reader.SetOffset(o)` is a no-op when `o` equals r.offset (= last message handed out + 1): no new fetcher
+            let runs : List (Int × Nat) × (Int × Nat) :=
+              (List.range sets.length).foldl (fun (acc : List (Int × Nat) × (Int × Nat)) i =>
+                let (done, (st, consumed)) := acc
+                let consumed := consumed + lens.getD i 0
+                let roff : Int := match (segsM.getD i []).getLast? with
+                  | some r => r.1 + 1
+                  | none => positions.getD i 0
+                let o := (sets.getD i (0, 0)).2
+                if o = roff then (done, (st, consumed)) else (done ++ [(st, consumed)], (o, 0))) ([], (startRL, 0))
+            let simN := runs.1.foldl (fun (sim : Sim) (run : Int × Nat) =>
+              let sim' := simulateN v fuel (run.2 + q + 1) { sim with rl := { offset := run.1 }, fetched := false }
+              sim') sim0
+            let simN := { simN with rl := { offset := runs.2.1 }, fetched := false }
+            let (sF, _) := simulate v fuel simN
+            let j := sF.journal
+            let jr := j.reverse.dropWhile (fun e => e.2 == hwm)
+            let j' := if jr.isEmpty then j.take 1 else jr.reverse
+            answer s!"d={showStream segsM} j={showJournal j'} out=done close=ok" holds
         | _, _, _, _, _, _, _, _, _, _, _, _ => "bad-op"
       else "bad-op"
     | _, _ => "bad-op"
